@@ -1,17 +1,30 @@
 #!/bin/bash
-# usage: harness/seed_matrix.sh [tier]  — every seeded change against the check of its own property; writes seeded/RESULTS.tsv
+# usage: harness/seed_matrix.sh [tier] [parallel]  — every seeded change against the check of its own property, each in an isolated scratch
+# worktree of /repo + scratch copy of /verif (harness/seedtest_iso.sh); writes seeded/RESULTS.tsv.  /repo and /verif/lean are not touched.
 cd /verif
-tier="${1:-quick}"
+tier="${1:-quick}"; par="${2:-4}"
 out=seeded/RESULTS.tsv
-echo -e "seed\tproperty\trc\tverdict" > $out
-for d in seeded/*/; do
-  s=$(basename $d); pid=${s%-*}
-  [ -f "$d/patch.diff" ] || continue
-  ( cd /repo && git apply --check "/verif/$d/patch.diff" 2>/dev/null ) || { echo -e "$s\t$pid\t-\tSTALE (patch does not apply)" >> $out; continue; }
-  ( cd /repo && git apply "/verif/$d/patch.diff" )
-  o=$(/venv/bin/python harness/verif.py check $pid --tier $tier 2>&1); rc=$?
-  git -C /repo checkout -- .
-  v=$(echo "$o" | grep VIOLATION | head -1 | sed 's/replay=[^ ]*//')
-  echo -e "$s\t$pid\t$rc\t${v:-no violation reported}" >> $out
+tmp=$(mktemp -d /tmp/seedmatrix-XXXX)
+ls -d seeded/*/ | while read d; do s=$(basename $d); [ -f "$d/patch.diff" ] && echo "$s"; done > $tmp/list
+run_one() {
+  s="$1"; slot="$2"; pid=${s%-*}
+  if ! ( cd /repo && git apply --check "/verif/seeded/$s/patch.diff" 2>/dev/null ); then echo -e "$s\t$pid\t-\tSTALE (patch does not apply)"; return; fi
+  o=$(bash harness/seedtest_iso.sh /verif/seeded/$s $pid m$slot $tier 2>&1 | tail -1)
+  rc=$(echo "$o" | sed -n 's/.* rc=\([0-9]*\).*/\1/p')
+  v=$(echo "$o" | grep -o "VIOLATION property=[A-Z0-9]*\( replay=[^ ]*\)\?\( no-failing-input-found\)\?" | sed 's/ replay=[^ ]*//')
+  echo -e "$s\t$pid\t$rc\t${v:-no violation reported}"
+}
+export -f run_one; export tier
+i=0
+while read s; do
+  slot=$((i % par)); i=$((i+1))
+  echo "$s $slot"
+done < $tmp/list > $tmp/jobs
+for slot in $(seq 0 $((par-1))); do
+  ( grep " $slot\$" $tmp/jobs | while read s sl; do run_one $s $sl; done > $tmp/out.$slot ) &
 done
-git -C /repo status --short
+wait
+echo -e "seed\tproperty\trc\tverdict" > $out
+cat $tmp/out.* | sort >> $out
+rm -rf $tmp
+cat $out
